@@ -96,12 +96,15 @@ func goverifCallEntry(lang, dir string, m *model.BinaryModel, p *model.Packet, f
 		return NewPythonGenerator(m).generateTestCodeForPacket(p)
 	case "cpp:test":
 		return NewCppGenerator(m).generateUnitestForPacket(p)
-	case "go:testfiles", "python:testfiles":
+	case "go:testfiles", "python:testfiles", "java:testfiles":
 		var out map[string][]byte
 		var err error
-		if lang == "go" {
+		switch lang {
+		case "go":
 			out, err = NewGoGenerator(m).Generate(m)
-		} else {
+		case "java":
+			out, err = NewJavaGenerator(m).Generate(m)
+		default:
 			out, err = NewPythonGenerator(m).Generate(m)
 		}
 		if err != nil {
@@ -109,7 +112,7 @@ func goverifCallEntry(lang, dir string, m *model.BinaryModel, p *model.Packet, f
 		}
 		var names []string
 		for n := range out {
-			if strings.Contains(n, "_test.") {
+			if strings.Contains(n, "_test.") || strings.HasSuffix(n, "Test.java") {
 				names = append(names, n)
 			}
 		}
@@ -486,6 +489,13 @@ func replayEmit(o emitObl, runs []emitRun) map[string]interface{} {
 		for _, k := range []string{"1", "2", "3", "4"} {
 			if !strings.Contains(txt, k) {
 				reproduced, observed = true, "key "+k+" of the match table does not occur in the dispatch code"
+			}
+		}
+		show("base")
+	case "key-compared":
+		for _, k := range []string{"1", "2", "3", "4"} {
+			if !strings.Contains(t("base"), "== "+k+" ") && !strings.Contains(t("base"), "== "+k+"\n") {
+				reproduced, observed = true, "key "+k+" is never the right-hand side of a comparison with the key variable"
 			}
 		}
 		show("base")
